@@ -34,6 +34,10 @@ def run(shard, tier, seed):
     if shard["kind"] == "hist":
         n = 25 if tier == "quick" else 400
         nb = (6, 14) if tier == "quick" else (6, 30)
+        if shard["i"] == 14:
+            # histories that grow enough unspent outputs for blocks with 16..24 payments (honest ones and ones that pay too much)
+            return chainexec.drive(res, env.subseed(seed, ID, shard["i"]), n // 2, tier, FOCUS, CATS, ID, n_blocks=(22, 30), p_mut=0.5, p_restart=0.0,
+                                   p_unusual=0.4, p_tx=0.4, p_fork=0.1, p_big_block=0.5)
         return chainexec.drive(res, env.subseed(seed, ID, shard["i"]), n, tier, FOCUS, CATS, ID, n_blocks=nb, p_mut=0.4, p_restart=0.08,
                                p_unusual=0.3, p_deep=0.25, deep_halving=True)
     env.import_repo()
